@@ -59,6 +59,30 @@ theorem splitSlash_append_slash (a b : List Nat) :
       | nil => exact absurd h (splitSlash_ne_nil cs)
       | cons hd tl => simp
 
+/-- The first segment of a path: either the whole path, or the part before the first `/`. -/
+theorem splitSlash_head (p : List Nat) :
+    ∃ seg, 47 ∉ seg ∧ ((p = seg ∧ splitSlash p = [seg]) ∨
+      ∃ p', p = seg ++ 47 :: p' ∧ splitSlash p = seg :: splitSlash p') := by
+  induction p with
+  | nil => exact ⟨[], by simp, Or.inl ⟨rfl, by simp [splitSlash]⟩⟩
+  | cons c cs ih =>
+    by_cases hc : c = 47
+    · subst hc
+      exact ⟨[], by simp, Or.inr ⟨cs, by simp, by simp [splitSlash]⟩⟩
+    · obtain ⟨seg, hs, h⟩ := ih
+      refine ⟨c :: seg, ?_, ?_⟩
+      · intro hm
+        rcases List.mem_cons.mp hm with hm | hm
+        · exact hc hm.symm
+        · exact hs hm
+      · rcases h with ⟨h1, h2⟩ | ⟨p', h1, h2⟩
+        · left
+          refine ⟨by rw [h1], ?_⟩
+          simp only [splitSlash, hc, if_false, h2]
+        · right
+          refine ⟨p', by rw [h1]; simp, ?_⟩
+          simp only [splitSlash, hc, if_false, h2]
+
 theorem body_nil : body [] = [] := by
   simp [body, splitSlash, classify]
 
@@ -289,5 +313,12 @@ theorem readLoop_spec (C : Nat) (hC : 0 < C) (file : List Nat) :
           rw [this, Nat.add_div_right _ hC]
           simp
         omega
+
+theorem osRead_bounds (avail want hint : Nat) :
+    osRead avail want hint ≤ min want avail ∧ (0 < min want avail → 0 < osRead avail want hint) := by
+  unfold osRead
+  split
+  · omega
+  · omega
 
 end RtenVerif.ExtData
